@@ -994,7 +994,15 @@ where
                         match query_router.parse(&message) {
                             Ok(ast) => {
                                 if let Ok(output) = query_router.execute_plugins(&ast).await {
-                                    plugin_output = Some(output);
+                                    // A batch can carry several Parse messages: a later verdict
+                                    // must not overwrite an earlier Deny/Intercept.
+                                    if !matches!(
+                                        plugin_output,
+                                        Some(PluginOutput::Deny(_))
+                                            | Some(PluginOutput::Intercept(_))
+                                    ) {
+                                        plugin_output = Some(output);
+                                    }
                                 }
 
                                 let _ = query_router.infer(&ast);
@@ -1311,7 +1319,15 @@ where
                         if query_router.query_parser_enabled() {
                             if let Ok(ast) = query_router.parse(&message) {
                                 if let Ok(output) = query_router.execute_plugins(&ast).await {
-                                    plugin_output = Some(output);
+                                    // A batch can carry several Parse messages: a later verdict
+                                    // must not overwrite an earlier Deny/Intercept.
+                                    if !matches!(
+                                        plugin_output,
+                                        Some(PluginOutput::Deny(_))
+                                            | Some(PluginOutput::Intercept(_))
+                                    ) {
+                                        plugin_output = Some(output);
+                                    }
                                 }
                             }
                         }
